@@ -684,6 +684,33 @@ def r8_archive_members(ctx, res):
     ], 'a tar member is refused exactly when it is neither file nor directory (TarInfo.isfile / isdir) or its path is absolute / contains ..')
 
 
+def r9_directory_dispatch_and_decompression(ctx, res):
+    """(a) a directory is a PACKAGE when it has the package layout, whatever else it contains - the package test comes first, a
+    directory is taken as a collection only when it is not a package (a package that keeps an older release in a sub-directory
+    satisfies both tests);  (b) a compressed resource is read from a temporary file that is CLOSED (flushed) before its path is
+    handed to the reader: the last buffer of the decompressed data is otherwise missing for the consumer, while the plain
+    route reads everything.  Both on the effect summaries of wn.project."""
+    from ..speccheck import view, expect
+    v = view(ctx, 'project', 'iterpackages')
+    P = 'Path(path).expanduser()'
+    expect(res, 'dispatch:iterpackages', v, [
+        ('yield', f'Package({P})', (f'{P}.is_dir()', f'is_package_directory({P})')),
+        ('yield-from', f'Collection({P}).packages()', (f'{P}.is_dir()', f'is_collection_directory({P})', f'not is_package_directory({P})')),
+    ], 'a directory with the package layout is a package; only other directories are looked at as collections', exact=())
+    d = view(ctx, 'project', '_get_decompressed')
+    key = 'decompressed:closed-before-handed-out'
+    ys = [(i, r) for i, r in enumerate(d.rows) if r[0] == 'yield' and 'NamedTemporaryFile' in r[1]]
+    closes = [(i, r) for i, r in enumerate(d.rows) if r[0] == 'call' and r[1].endswith('.close()') and 'NamedTemporaryFile' in r[1]
+              and 'finally' not in r[3]]
+    res.inst(key, d.loc(), f'{len(ys)} temp-file yields, {len(closes)} close() calls outside finally')
+    if not ys:
+        res.find(key, d.loc(), '_get_decompressed no longer yields the path of its temporary file')
+    for i, y in ys:
+        if not any(j < i and set(c[2]) <= set(y[2]) for j, c in closes):
+            res.find(key, d.loc(y[4]), '_get_decompressed hands out the path of the temporary file before closing it: the tail of the '
+                                       'decompressed data is still in the write buffer when the reader opens the path (a compressed ILI / '
+                                       'LMF file of the wrong size is read short, the same file uncompressed is not)')
+
 RULES = [
     ('C07-R1', r1_sibling_entry_points, 5),
     ('C07-R2', r2_skip_dominance, 2),
@@ -693,4 +720,5 @@ RULES = [
     ('C07-R6', r6_recognition_by_content, 7),
     ('C07-R7', r7_prescan_agrees_with_parser, 7),
     ('C07-R8', r8_archive_members, 1),
+    ('C07-R9', r9_directory_dispatch_and_decompression, 2),
 ]
